@@ -475,3 +475,78 @@ Lemma teneye_count_2 a b : teneye_count [a; b] = if Nat.eqb a b then 2 else 0.
 Proof.
   unfold teneye_count. cbn. rewrite (Nat.eqb_sym b a). destruct (Nat.eqb a b); reflexivity.
 Qed.
+
+(* ================================================================ what the code does NOT guarantee (known findings) *)
+(* "the requested number of nonzeros" as the property states it, for every admissible stream of draws *)
+Definition requested_count_stmt : Prop :=
+  forall (nz : nat) (s : shape) (draws : list (list (list Z))),
+  Forall (fun d => 0 < d) s -> Forall (valid_draw s) draws -> Forall (fun d => length d = nz) draws ->
+  10 <= length draws -> nz < size s -> length (sprand_subs nz s draws) = nz.
+
+(* refuted by a stream whose ten draws all hit the same cell twice (finding A-46) *)
+Theorem requested_count_refuted : ~ requested_count_stmt.
+Proof.
+  intros H. specialize (H 2 [2; 3] (repeat [[0; 0]; [0; 0]]%Z 10)).
+  assert (Hv : valid_draw [2; 3] [[0; 0]; [0; 0]]%Z).
+  { repeat constructor; cbn; lia. }
+  assert (E : length (sprand_subs 2 [2; 3] (repeat [[0; 0]; [0; 0]]%Z 10)) = 1) by (vm_compute; reflexivity).
+  rewrite E in H. assert (1 = 2); [|lia]. apply H.
+  - repeat constructor.
+  - cbn [repeat]. repeat (constructor; [exact Hv|]). constructor.
+  - cbn [repeat]. repeat constructor.
+  - cbn. lia.
+  - cbn. lia.
+Qed.
+
+(* sptenrand(shape, density = p/q): the count the code derives is the one the property asks for *)
+Definition density_count_stmt : Prop :=
+  forall (total : nat) (p : Z) (q : positive), (0 < p)%Z -> (p <= Zpos q)%Z ->
+  sptenrand_count_impl total p q = Some (sptenrand_count_spec total p q).
+
+(* refuted twice: size*density < 1 is read as a density again (C20-N1); density = 1 is rejected (C20-N3) *)
+Theorem density_count_refuted : ~ density_count_stmt.
+Proof.
+  intros H. specialize (H 100 1%Z 200%positive). vm_compute in H. assert (E : Some 50 = Some 0) by (apply H; reflexivity || (intro; discriminate)).
+  discriminate.
+Qed.
+
+(* ... and it holds on the rest of the range: at least one nonzero requested, density below one *)
+Theorem density_count_partial (total : nat) (p : Z) (q : positive) :
+  (Zpos q <= Z.of_nat total * p)%Z -> (0 < p < Zpos q)%Z ->
+  sptenrand_count_impl total p q = Some (sptenrand_count_spec total p q).
+Proof.
+  intros H1 H2. unfold sptenrand_count_impl, norm_request, sptenrand_count_spec.
+  assert (Ht : (0 < Z.of_nat total)%Z) by nia.
+  destruct (Z.ltb_spec (Z.of_nat total * p) 0); [nia|].
+  destruct (Z.leb_spec (Z.of_nat total * Zpos q) (Z.of_nat total * p)); [nia|]. cbn [orb].
+  destruct (Z.ltb_spec (Z.of_nat total * p) (Zpos q)); [lia|]. reflexivity.
+Qed.
+
+(* ================================================================ guards of from_aggregator *)
+Section AggGuard.
+Context {V : Type} (isz : V -> bool).
+Definition agg_shape_of (so : option shape) (N : nat) (subs : list idx) : shape :=
+  match so with Some s => s | None => infer_shape N subs end.
+
+Theorem agg_guard_accept so N subs (vals : list V) f :
+  length subs = length vals -> Forall (fun i => inb (agg_shape_of so N subs) i = true) subs ->
+  from_aggregator_chk isz so N subs vals f = Some (from_aggregator isz (agg_shape_of so N subs) subs vals f).
+Proof.
+  intros HL Hb. unfold from_aggregator_chk. fold (agg_shape_of so N subs).
+  rewrite HL, Nat.eqb_refl. cbn [negb].
+  replace (forallb (inb (agg_shape_of so N subs)) subs) with true; [reflexivity|].
+  symmetry. apply forallb_forall. rewrite Forall_forall in Hb. exact Hb.
+Qed.
+
+Theorem agg_guard_reject so N subs (vals : list V) f :
+  length subs <> length vals \/ Exists (fun i => inb (agg_shape_of so N subs) i = false) subs ->
+  from_aggregator_chk isz so N subs vals f = None.
+Proof.
+  intros H. unfold from_aggregator_chk. fold (agg_shape_of so N subs).
+  destruct (Nat.eqb_spec (length subs) (length vals)) as [E|E]; cbn [negb]; auto.
+  destruct H as [H|H]; [contradiction|].
+  replace (forallb (inb (agg_shape_of so N subs)) subs) with false; [reflexivity|].
+  symmetry. apply not_true_is_false. intros Hf. rewrite forallb_forall in Hf.
+  apply Exists_exists in H as (i & Hi & Hz). rewrite (Hf i Hi) in Hz. discriminate.
+Qed.
+End AggGuard.
